@@ -270,7 +270,8 @@ def headerCheck (store : Map Blk) (b : Blk) : Option Err :=
     else none
 
 /-- `for !bc.HasState(parent.Root()) { winner = append(winner, parent); parent = GetBlock(parent.ParentHash(), …) }`
-    (newest first).  `none` = nil dereference. -/
+    (newest first).  `none` = the walk ran into a missing block (`parent == nil`; since 7235ac1 the import then returns
+    ErrUnknownAncestor instead of dereferencing nil). -/
 def statelessAncestors (s : St) : Nat → Blk → Option (List Blk)
   | 0, _ => none
   | f + 1, p =>
@@ -327,10 +328,10 @@ def importOne (s : St) (b : Blk) (coins : List Bool) : Out :=
             ⟨{ s with td := upd s.td b.id (some externTd), store := upd s.store b.id (some b) }, none⟩
           else
             match parentOf s.store b with
-            | none => ⟨s, some .modelPanic⟩
+            | none => ⟨s, some .unknownAncestor⟩
             | some p =>
               match statelessAncestors s (p.number + 1) p with
-              | none => ⟨s, some .modelPanic⟩
+              | none => ⟨s, some .unknownAncestor⟩     -- fix 7235ac1: an ancestor of the side chain is gone
               | some winner =>
                 let o := processWinners s winner coins
                 match o.err with
@@ -467,6 +468,23 @@ def overwriteStale (store : Map Blk) : Nat → Map Nat → Nat → Nat → Map N
           | 0 => (canon', false)
           | k + 1 => overwriteStale store f canon' x.parent k
 
+/-- fix 2ee9efd, the read-only walk in front of the index update:
+    `for h, n := parent, number-1; GetCanonicalHash(n) != h; { a := GetHeader(h, n); if a == nil { return ErrUnknownAncestor }; h, n = a.ParentHash, n-1 }`.
+    `false` = an ancestor is missing before a canonical header is reached. -/
+def ancestryOk (store : Map Blk) : Nat → Map Nat → Nat → Nat → Bool
+  | 0, _, _, _ => false
+  | f + 1, canon, hh, hn =>
+    if canon hn = some hh then true
+    else
+      match store hh with
+      | none => false
+      | some x =>
+        if x.number ≠ hn then false
+        else
+          match hn with
+          | 0 => false
+          | k + 1 => ancestryOk store f canon x.parent k
+
 /-- `HeaderChain.WriteHeader`.  Ties are broken by the coin alone (no preference for the lower number). -/
 def writeHeader (s : HSt) (h : Blk) (coin : Bool) : HOut :=
   match s.td h.parent with
@@ -481,6 +499,8 @@ def writeHeader (s : HSt) (h : Blk) (coin : Bool) : HOut :=
         match h.number with
         | 0 => ⟨s1, some .modelPanic⟩
         | k + 1 =>
+          if !ancestryOk s1.store (k + 1) s1.canon h.parent k then ⟨s1, some .unknownAncestor⟩
+          else
           match overwriteStale s1.store (k + 1) c1 h.parent k with
           | (c2, false) => ⟨{ s1 with canon := c2 }, some .modelPanic⟩
           | (c2, true) => ⟨{ s1 with canon := upd c2 h.number (some h.id), hhead := h.id }, none⟩
